@@ -305,7 +305,35 @@ func CheckRanges(c *core.Check, src []byte, vec map[string]any) bool {
 	return true
 }
 
+// rangeNesting: the range of every sub-expression lies inside the range of the expression that contains it.
+type rangeNesting struct {
+	stack []hcl.Range
+	bad   func(string, string)
+	src   []byte
+}
+
+func (w *rangeNesting) Enter(n hclsyntax.Node) hcl.Diagnostics {
+	r := n.Range()
+	if _, anon := n.(*hclsyntax.AnonSymbolExpr); !anon && len(w.stack) > 0 {
+		p := w.stack[len(w.stack)-1]
+		if r.Start.Byte < p.Start.Byte || r.End.Byte > p.End.Byte {
+			w.bad("nesting", fmt.Sprintf("%T range %q is not inside its parent's range %q", n, r.SliceBytes(w.src), p.SliceBytes(w.src)))
+		}
+	}
+	if _, anon := n.(*hclsyntax.AnonSymbolExpr); anon {
+		r = hcl.Range{Start: hcl.Pos{Byte: 0}, End: hcl.Pos{Byte: len(w.src)}}
+	}
+	w.stack = append(w.stack, r)
+	return nil
+}
+
+func (w *rangeNesting) Exit(n hclsyntax.Node) hcl.Diagnostics {
+	w.stack = w.stack[:len(w.stack)-1]
+	return nil
+}
+
 func checkExprRanges(src []byte, e hclsyntax.Expression, bad func(string, string)) {
+	hclsyntax.Walk(e, &rangeNesting{bad: bad, src: src})
 	hclsyntax.VisitAll(e, func(n hclsyntax.Node) hcl.Diagnostics {
 		switch t := n.(type) {
 		case *hclsyntax.BinaryOpExpr:
@@ -337,6 +365,21 @@ func checkExprRanges(src []byte, e hclsyntax.Expression, bad func(string, string
 		case *hclsyntax.IndexExpr:
 			if !sliceIs(src, t.OpenRange, "[") {
 				bad("index-open", fmt.Sprintf("index OpenRange slices %q", t.OpenRange.SliceBytes(src)))
+			}
+			if br := string(t.BracketRange.SliceBytes(src)); !strings.HasPrefix(br, "[") || !strings.HasSuffix(br, "]") ||
+				t.BracketRange.Start.Byte > t.Key.Range().Start.Byte || t.BracketRange.End.Byte < t.Key.Range().End.Byte {
+				bad("index-brackets", fmt.Sprintf("index BracketRange slices %q (key %q)", br, t.Key.Range().SliceBytes(src)))
+			}
+		case *hclsyntax.ForExpr:
+			o, cl := string(t.OpenRange.SliceBytes(src)), string(t.CloseRange.SliceBytes(src))
+			tplFor := strings.HasPrefix(o, "%{") && strings.HasSuffix(o, "}") && strings.Contains(o, "for") &&
+				strings.HasPrefix(cl, "%{") && strings.HasSuffix(cl, "}") && strings.Contains(cl, "endfor")
+			if !((o == "[" && cl == "]") || (o == "{" && cl == "}") || tplFor) {
+				bad("for-brackets", fmt.Sprintf("for expression Open/CloseRange slice %q and %q", o, cl))
+			}
+		case *hclsyntax.SplatExpr:
+			if m := sigText(string(t.MarkerRange.SliceBytes(src))); m != ".*" && m != "[*]" {
+				bad("splat-marker", fmt.Sprintf("splat MarkerRange slices %q", t.MarkerRange.SliceBytes(src)))
 			}
 		case *hclsyntax.ScopeTraversalExpr:
 			for _, step := range t.Traversal {
